@@ -377,6 +377,14 @@ CLASS_BASES = {"SoftAlignment": ["Alignment"],
                "PositionalSporadicDissimilarity": ["AbstractDissimilarity"],
                "AbsoluteCategoricalDissimilarity": ["CategoricalDissimilarity", "AbstractDissimilarity"],
                "CategoricalDissimilarity": ["AbstractDissimilarity"]}
+def register_class(name, relfile, bases=()):
+    CLASS_FILE[name] = relfile
+    if bases:
+        CLASS_BASES[name] = list(bases)
+        for b in bases:
+            SUBCLASSES.setdefault(b, []).append(name)
+
+
 SUBCLASSES = {"AbstractDissimilarity": ["CombinedCategoricalDissimilarity", "PositionalSporadicDissimilarity",
                                         "CategoricalDissimilarity", "AbsoluteCategoricalDissimilarity"],
               "Alignment": ["SoftAlignment"]}
